@@ -375,10 +375,10 @@ def run(tier: str, seed: int, t0: float) -> int:
     stats.counts["max_live_objects"] = max(len(e["snaps"]) for bb, _ in jobs for e in bb.events)
     for key, least in (("verdict:ok", 500), ("max_live_objects", 150)):
         if stats.counts.get(key, 0) < least:
-            raise core.MachineryError(f"vacuity gate: {key}={stats.counts.get(key, 0)} < {least}")
+            core.vacuity(out, f"vacuity gate: {key}={stats.counts.get(key, 0)} < {least}")
     for op in ("Transform.replace", "Transform.add_mark", "Step.apply", "queries", "Node.slice", "Mark set ops", "to_json", "Mapping ops", "DOM", "structure helpers"):
         if stats.counts.get("op:" + op, 0) < 3:
-            raise core.MachineryError(f"vacuity gate: op:{op}={stats.counts.get('op:' + op, 0)} < 3")
+            core.vacuity(out, f"vacuity gate: op:{op}={stats.counts.get('op:' + op, 0)} < 3")
     return core.finish("C10", tier, seed, stats, out, t0,
                        rule="sessions of 40 (quick) / 120 (thorough) public calls over model queries, slice/cut/replace/fragment construction, every step type "
                             "(apply, invert, map, merge, get_map), every Transform method, mark-set operations, mapping operations, JSON and DOM conversion; "
